@@ -250,11 +250,21 @@ def run_matrix(ctx):
     """Every term as left neighbour x every term as right neighbour, juxtaposed with zero whitespace wherever the
     tokenisation allows it (gen.tight_jux_ok), plus left+right+left chains."""
     r = ctx.case_rng(-1, "matrix")
-    pool = [gen.gen_facts(r, t) for t in ("http", "http", "http", "tcp", "udp", "dns")] + [gen.gen_facts(r) for _ in range(10)]
+    pool = [gen.gen_facts(r, t) for t in ("http", "http", "http", "tcp", "udp", "dns")] + [gen.gen_facts(r) for _ in range(6)]
     flows = [gen.build_flow(f) for f in pool]
-    for ls, le, lt, la in TERMS:
+    # as left neighbour three argument-less operators are enough (what matters is how the left term ends); as right
+    # neighbour every one of them is used (each has its own grammar element); pairs are dealt round-robin to the workers
+    lefts = [t for t in TERMS if t[0] != "unary" or t[2] in ("~q", "~http", "~replayq")]
+    k = -1
+    for ls, le, lt, la in lefts:
         for rs, re_, rt, ra in TERMS:
             if not gen.tight_jux_ok(le, rs):
+                continue
+            k += 1
+            if k % ctx.nworkers != ctx.worker:
+                continue
+            if ctx.time_left() < ctx.seconds * 0.5:
+                ctx.count("matrix_pairs_skipped_for_time")
                 continue
             cases = [(lt + rt, ("and", [la, ra]))]
             if gen.tight_jux_ok(re_, ls) and ctx.tier == "thorough":
@@ -272,7 +282,7 @@ def run_matrix(ctx):
 
 
 def run(ctx):
-    if ctx.only_case is None and ctx.worker == 0:
+    if ctx.only_case is None:
         ctx.guard(run_matrix, ctx, what="matrix")
     for _ in ctx.cases():
         ctx.guard(run_case, ctx, what="harness")
